@@ -45,6 +45,8 @@ func main() {
 	r.Fold(8, 3)
 	r.Assume("the reference was cross-checked at construction time against SQLite 3.40 window functions and aggregates (2 400 statements, 14 574 cells, no disagreement)")
 	r.Assume("window ORDER BY is made total (id appended) whenever the function depends on the order of peers (ROW_NUMBER, NTILE, LAG/LEAD, FIRST/LAST_VALUE, ROWS frames); RANGE / default frames are ordered by the NOT NULL key k (F21 exclusion); floats are not used as inputs")
+	r.Assume("input classes excluded because of known findings (via=domain in findings/C08.txt): RANGE / default frames whose ordering key contains NULL (F21) or is DESC; only the pinned witnesses cover them")
+	r.Extra("excluded_input_classes", []string{"range-frame-null-order-key", "range-frame-descending-order-key"})
 	if r.Replay != "" {
 		replay(r, r.Replay)
 		r.Finish()
